@@ -9,3 +9,4 @@ import VK.Props.C08NeutralPairwise
 import VK.Props.C08NeutralDictator
 import VK.Props.C08CandOrderSTV
 import VK.Props.C08CandOrderPairwise
+import VK.Props.C08Rep
